@@ -101,12 +101,19 @@ def observe(c):
     return its[::-1], len(c), c.capacity
 
 
-def build(cap, keys, vals):
+def build(cap, keys, vals, t1=-1, t2=-1):
+    """State reached by inserting distinct keys in the given order and then reading up to two of them again:
+    every relation between the mapping's insertion order and the recency order is reachable this way."""
     c = LRUCache(cap)
     r = Ref(cap)
     for k, v in zip(keys, vals):
         c[k] = v
         r.set(k, v)
+    n = len(keys)
+    for t in (t1, t2):
+        if 0 <= t < n:
+            c[keys[t]]
+            r.getitem(keys[t])
     return c, r
 
 
@@ -164,27 +171,34 @@ def apply(c, r, op, k, v):
     raise AssertionError(op)
 
 
+TWO_FLAG = [False]
+
+
+def TWO():
+    return TWO_FLAG[0]
+
+
 OPS = ["getitem", "get", "get_nodefault", "set", "del", "setdefault", "contains", "len", "clear",
        "keys", "values", "items", "iter", "reversed"]
 
 
-def step(cap: int, keys: List[int], vals: List[int], k: int, v: int) -> bool:
+def step(cap: int, keys: List[int], vals: List[int], k: int, v: int, t1: int, t2: int) -> bool:
     """
-    pre: valid(cap, keys, vals) and 0 <= k < NK
+    pre: valid(cap, keys, vals) and 0 <= k < NK and -1 <= t1 < MAXCAP and -1 <= t2 < MAXCAP and (t2 == -1 or TWO())
     post: _
     """
-    c, r = build(cap, keys, vals)
+    c, r = build(cap, keys, vals, t1, t2)
     a, b = apply(c, r, OP, k, v)
     st, n, capn = observe(c)
     return a == b and st == r.items and n == len(r.items) and n <= cap and capn == cap
 
 
-def step_copy(cap: int, keys: List[int], vals: List[int], k: int, v: int) -> bool:
+def step_copy(cap: int, keys: List[int], vals: List[int], k: int, v: int, t1: int, t2: int) -> bool:
     """
-    pre: valid(cap, keys, vals) and 0 <= k < NK
+    pre: valid(cap, keys, vals) and 0 <= k < NK and -1 <= t1 < MAXCAP and -1 <= t2 < MAXCAP and (t2 == -1 or TWO())
     post: _
     """
-    c, r = build(cap, keys, vals)
+    c, r = build(cap, keys, vals, t1, t2)
     d = c.copy()
     ok = observe(d) == observe(c) and observe(c)[0] == r.items
     # the copy is independent, and still a working LRU of the same capacity
@@ -195,22 +209,23 @@ def step_copy(cap: int, keys: List[int], vals: List[int], k: int, v: int) -> boo
     return ok and observe(d)[0] == r2.items and observe(c)[0] == r.items
 
 
-def step_pickle(cap: int, keys: List[int], proto: int, how: int) -> bool:
+def step_pickle(cap: int, keys: List[int], proto: int, how: int, t1: int) -> bool:
     """
-    pre: 1 <= cap <= MAXCAP and len(keys) <= cap and all(0 <= k < NK for k in keys) and len(set(keys)) == len(keys) and 0 <= proto <= 5 and 0 <= how <= 2
+    pre: 1 <= cap <= MAXCAP and len(keys) <= cap and all(0 <= k < NK for k in keys) and len(set(keys)) == len(keys) and 0 <= proto <= 5 and 0 <= how <= 2 and -1 <= t1 < MAXCAP
     post: _
     """
     capc = 1 + pick(cap - 1, MAXCAP)
     ks = [pick(k, NK) for k in keys]
     p = pick(proto, 6)
     h = pick(how, 3)
+    tt = pick(t1 + 1, MAXCAP + 1) - 1
     with NoTracing():
-        return _pickle_native(capc, ks, p, h)
+        return _pickle_native(capc, ks, p, h, tt)
 
 
-def _pickle_native(cap, keys, p, h):
+def _pickle_native(cap, keys, p, h, t1=-1):
     vals = [k * 10 + 1 for k in keys]
-    c, r = build(cap, keys, vals)
+    c, r = build(cap, keys, vals, t1)
     if h == 0:
         d = pickle.loads(pickle.dumps(c, p))
     elif h == 1:
@@ -428,17 +443,17 @@ def conditions(tier, seed):
     global HLEN
     thorough = tier == "thorough"
     par = {"nk": 5 if thorough else 4, "maxcap": 4 if thorough else 3}
-    b = f"capacity 1..{par['maxcap']}, distinct int keys 0..{par['nk']-1} inserted in symbolic order, values any int"
+    b = f"capacity 1..{par['maxcap']}, distinct int keys 0..{par['nk']-1} inserted in symbolic order, then up to two of them read again (symbolic positions), values any int"
     out = []
-    to = 240 if thorough else 45
+    to = 240 if thorough else 60
     for op in OPS:
-        out.append(Cond(f"step[{op}]", "step", mode="A", param=dict(par, op=op), timeout=to,
-                        witnesses=[[2, [1, 0], [5, 6], 1, 7], [1, [], [], 0, 0], [2, [3, 2], [1, 1], 0, 9]],
+        out.append(Cond(f"step[{op}]", "step", mode="A", param=dict(par, op=op, two=thorough), timeout=to * (2 if op in ("set", "del", "setdefault") else 1),
+                        witnesses=[[2, [1, 0], [5, 6], 1, 7, -1, -1], [1, [], [], 0, 0, -1, 0], [2, [3, 2], [1, 1], 0, 9, 0, -1], [3, [0, 1, 2], [4, 5, 6], 3, 1, 0, -1]],
                         bounds="one step from any valid state: " + b))
-    out.append(Cond("step[copy]", "step_copy", mode="A", param=par, timeout=to,
-                    witnesses=[[2, [1, 0], [5, 6], 3, 7]], bounds="copy() from any valid state: " + b))
-    out.append(Cond("step[pickle/copy/deepcopy]", "step_pickle", mode="B", param=par, timeout=to,
-                    witnesses=[[2, [1, 0], 2, 0], [3, [2, 0, 1], 5, 2]],
+    out.append(Cond("step[copy]", "step_copy", mode="A", param=dict(par, two=thorough), timeout=to * 2,
+                    witnesses=[[2, [1, 0], [5, 6], 3, 7, -1, -1], [3, [0, 1, 2], [4, 5, 6], 3, 7, 0, -1], [3, [0, 1, 2], [4, 5, 6], 0, 7, 1, 0]], bounds="copy() from any valid state: " + b))
+    out.append(Cond("step[pickle/copy/deepcopy]", "step_pickle", mode="B", param=par, timeout=to * 3,
+                    witnesses=[[2, [1, 0], 2, 0, -1], [3, [2, 0, 1], 5, 2, 0], [3, [0, 1, 2], 3, 1, 1]],
                     bounds="pickle protocols 0..5, copy.copy, copy.deepcopy from any valid state (values derived from keys)"))
     hl = 4 if thorough else 2
     for opa in CONC_OPS:
@@ -481,6 +496,7 @@ _setup0 = setup
 def setup(param):  # noqa: F811
     global HLEN
     _setup0(param)
+    TWO_FLAG[0] = bool((param or {}).get("two"))
     P_CONC.clear()
     P_CONC.update({k: v for k, v in (param or {}).items() if k in ("opa", "opb", "maxstep", "allkeys")})
     if param and "hlen" in param:
